@@ -217,7 +217,7 @@ Lemma run_transfer var k ss (cvs : list (list Q)) flat i :
 Proof.
   unfold run. rewrite lengths_QR, schemes_of_transfer.
   destruct (match k with KNearest => true | KLinear => false
-                    | KPerAxis => negb (int_raises var) && negb (has_linear ss) end); destruct i; cbn [inQ2R].
+                    | KPerAxis => negb (int_raises var) && gen_peraxis_index_based ss end); destruct i; cbn [inQ2R].
   - apply nearest_points_transfer.
   - apply nearest_mesh_transfer.
   - apply peraxis_points_transfer.
@@ -231,14 +231,22 @@ Proof.
   destruct c as [|a [|b c]]; reflexivity.
 Qed.
 
-Lemma malformed_transfer (cvs : list (list Q)) i o : malformed (map QR cvs) (inQ2R i) o = malformed cvs i o.
+Lemma rejected_transfer (cvs : list (list Q)) i o : rejected (map QR cvs) (inQ2R i) o = rejected cvs i o.
 Proof.
-  unfold malformed. rewrite map_length. f_equal.
-  - destruct i; cbn [inQ2R]; [|rewrite map_length; reflexivity].
-    induction pts as [|p pts IH]; [reflexivity|]. cbn [map existsb]. rewrite map_length, IH. reflexivity.
-  - destruct o as [[sh dt]|]; [|reflexivity]. f_equal. f_equal. f_equal.
-    destruct i; cbn [inQ2R out_shape]; [rewrite map_length; reflexivity|].
-    rewrite map_map. apply map_ext. intros xs. apply map_length.
+  unfold rejected. rewrite map_length.
+  assert (H1 : (match inQ2R i with
+                | IPoints pts => existsb (fun p => negb (length p =? length cvs)%nat) pts
+                | IMesh m => negb (length m =? length cvs)%nat end)
+             = (match i with
+                | IPoints pts => existsb (fun p => negb (length p =? length cvs)%nat) pts
+                | IMesh m => negb (length m =? length cvs)%nat end)).
+  { destruct i as [pts|m]; cbn [inQ2R]; [|rewrite map_length; reflexivity].
+    induction pts as [|p pts IH]; [reflexivity|]. cbn [map existsb]. rewrite map_length, IH. reflexivity. }
+  rewrite H1. destruct o as [[sh dt]|]; [|reflexivity].
+  assert (H2 : out_shape (inQ2R i) = out_shape i).
+  { destruct i; cbn [inQ2R out_shape]; [rewrite map_length; reflexivity|].
+    rewrite map_map. apply map_ext. intros xs. apply map_length. }
+  rewrite H2. reflexivity.
 Qed.
 
 Lemma existsb_len_transfer (m : list (list Q)) :
@@ -260,8 +268,8 @@ Theorem interp_call_transfer var k ss (cvs : list (list Q)) dt flat i o :
   outQ2R (interp_call var k ss cvs dt flat i o)
   = interp_call var k ss (map QR cvs) dt (QR flat) (inQ2R i) o.
 Proof.
-  unfold interp_call. rewrite malformed_transfer, mesh1_transfer, schemes_of_transfer, degenerate_transfer.
-  destruct (malformed cvs i o); [reflexivity|].
+  unfold interp_call. rewrite rejected_transfer, mesh1_transfer, schemes_of_transfer, degenerate_transfer.
+  destruct (rejected cvs i o) as [[|]|]; try reflexivity.
   destruct (mesh1_raises var && mesh1 i); [reflexivity|].
   destruct k, dt; cbn [outQ2R];
     repeat match goal with |- context [if ?b then _ else _] => destruct b end;
